@@ -313,6 +313,9 @@ def events(files, tier):
         for c in CONTENTS:
             ev.append((('w', f, c),))
         ev.append((('r', f),))
+        # the file comes back with an OLD modification time (renamed away and back, restored from a
+        # backup, cp -p): applicable only while the file is absent
+        ev.append((('o', f, 'pY'),))
     # simultaneous changes to two files within one scan
     f0, f1 = files[0], files[1]
     ev += [(('r', f0), ('r', f1)), (('w', f0, 'pX'), ('w', f1, 'pY')),
@@ -388,12 +391,15 @@ class Run(object):
         loads, removed = [], []
         for ch in event:
             p = os.path.join(self.dir, ch[1])
-            if ch[0] == 'w':
+            if ch[0] == 'w' or (ch[0] == 'o' and ch[1] not in self.contents):
                 with open(p, 'w') as f:
                     f.write(CONTENTS[ch[2]])
-                os.utime(p, (W.T0 + self.tick, W.T0 + self.tick))
+                stamp = W.T0 + self.tick if ch[0] == 'w' else W.T0 - 100
+                os.utime(p, (stamp, stamp))
                 self.contents[ch[1]] = ch[2]
                 loads.append((ch[1], CONTENTS[ch[2]]))
+            elif ch[0] == 'o':
+                pass        # present: not applicable
             else:
                 if ch[1] in self.contents:
                     os.unlink(p)
